@@ -971,7 +971,7 @@ class Length(object):
             if isinstance(relative_length, (float, int)):
                 return fraction * relative_length
             elif isinstance(relative_length, (str, Length)):
-                length = relative_length * self
+                length = Length(relative_length) * self
                 if isinstance(length, Length):
                     return length.value(
                         ppi=ppi,
